@@ -344,3 +344,35 @@ func cancelledWaiterToHandler(c *cx, id string) {
 	}
 	c.r.Floor(id, "cancelled arms of the hand-off", n, 1)
 }
+
+// sendErrorReturnsError: Session.sendError hands back the error it was given
+// (or the error of writing it) on every path: Serve returns its result, and a
+// nil here makes Serve end "without error" after a stream error, a handler
+// error or a broken stream.
+func sendErrorReturnsError(c *cx, id string) {
+	f := c.fn(id, "", "(*Session).sendError")
+	if f == nil {
+		return
+	}
+	g := f.Graph()
+	n := 0
+	for _, rs := range g.Returns {
+		n++
+		pt, _ := g.Where(rs)
+		ok := false
+		why := ""
+		switch {
+		case len(rs.Results) == 1 && f.Norm(rs.Results[0], &pt) == "p0":
+			ok = true // the error it was called with
+		case g.RetKindOf(rs) == eng.RetError:
+			ok = true
+		default:
+			why = "this return can hand back nil: Serve then returns nil although the stream ended with an error"
+			if len(rs.Results) == 1 {
+				why = "returns " + f.Norm(rs.Results[0], &pt) + ", which is not established non-nil here: " + why
+			}
+		}
+		c.r.Check(id, f, "sendError returns an error", "P: every return of sendError yields the error it was given or an error established non-nil", rs.Pos(), ok, why)
+	}
+	c.r.Floor(id, "returns of sendError", n, 3)
+}
